@@ -49,6 +49,9 @@ pub(crate) fn run() -> Result<(), Error> {
             Ok(())
         })
         .log_override(|_| {})
+        // We only read: writing from this deferred transaction would fail with
+        // "database is locked" whenever another redo has committed since it began.
+        .forget_missing_targets(false)
         .build();
     let mut targets: Vec<File> = Vec::new();
     for resf in Files::list(&mut ptx) {
